@@ -541,7 +541,7 @@ func collCall(r *rng, depth int) MalType {
 		}
 		items := []MalType{sy(name)}
 		for i := 0; i < n && i < len(dom); i++ {
-			if depth > 0 && r.chance(1, 5) && dom[i] != "I" && dom[i] != "K" && dom[i] != "P" {
+			if depth > 0 && r.chance(1, 5) && dom[i] != "I" && dom[i] != "K" && dom[i] != "P" && !orderExposing[name] {
 				items = append(items, collCall(r, depth-1))
 			} else {
 				items = append(items, call1("quote", collTyped(r, dom[i])))
